@@ -361,6 +361,16 @@ func frameCase(r *rand.Rand, o *hout.Out, idx int) {
 		var stream []byte
 		for i := 0; i < k; i++ {
 			m := randMsg(r)
+			if i == 0 && r.Intn(4) == 0 {
+				// damage before the first message (C04_resync): complete segments that are not an end-of-message
+				// field; the reader must hand them over glued to the next message, once, and be exact afterwards
+				var g []byte
+				for j := 0; j <= r.Intn(3); j++ {
+					g = append(g, []string{"garbage\x01", "\x01", "9=12\x01", "x10=1\x01", "1\x01", "10\x01", "35=0\x0158=lost-checksum\x01", "0=\x01"}[r.Intn(8)]...)
+				}
+				m = append(g, m...)
+				o.Count("C04.damage-prefix")
+			}
 			c.msgs = append(c.msgs, m)
 			stream = append(stream, m...)
 		}
